@@ -335,15 +335,27 @@ def specsOf (c : Ctx) (cfg : Cfg) (hasUnstored : Bool) (impl : Impl) (d : Defs) 
 def kv (w : String) (key : String) : Option String :=
   if w.startsWith (key ++ "=") then some ((w.drop (key.length + 1)).toString) else none
 
+/-- 62^7: the number of values `RandBytes(7)` can return -/
+def idSpace : Nat := 3521614606208
+
+/-- Even an ideal generator repeats a value now and then among `n` draws (birthday bound, λ = n²/(2·62^7)).
+The stress case reports a defect only when the number of repeats is beyond what an ideal generator gives with
+probability < 1e-4: 2 repeats while λ ≤ 0.1, else 5 + 5λ. (Inside ONE definitions, a few hundred ids, λ < 1e-8:
+there every repeat counts.) -/
+def dupThreshold (n : Nat) : Nat :=
+  let lamMilli := n * n * 1000 / (2 * idSpace)
+  if lamMilli ≤ 100 then 2 else 5 + 5 * lamMilli / 1000
+
 def checkIds (lines : List String) : CaseResult := Id.run do
   let mut r : CaseResult := { nontrivial := true }
   for ln in lines do
     match words ln with
     | ["randbytes", cs, ds, f] =>
-      match (kv ds "dups").bind String.toNat? with
-      | some 0 => pure ()
-      | some n => r := { r with specs := s!"duplicate_generated_id: RandBytes(7) returned {n} repeated values in {cs} consecutive calls ({f})" :: r.specs }
-      | none => r := { r with bad := ln :: r.bad }
+      match (kv cs "calls").bind String.toNat?, (kv ds "dups").bind String.toNat? with
+      | some n, some d =>
+        if d ≥ dupThreshold n then
+          r := { r with specs := s!"duplicate_generated_id: RandBytes(7) returned {d} repeated values in {n} consecutive calls ({f}); an ideal generator stays below {dupThreshold n}" :: r.specs }
+      | _, _ => r := { r with bad := ln :: r.bad }
     | ["builds", ns, _, ds, f] =>
       match (kv ds "dupids").bind String.toNat? with
       | some 0 => pure ()
